@@ -904,17 +904,17 @@ var expectedProbes = map[string][]string{
 	"C01": {"c01-request-checked", "c01-protected-write-bound-true", "c01-protected-write-bound-false", "c01-request-from-second-feature-of-same-type-and-role"},
 	"C02": {"c02-update-compared", "c02-fn-networkManagementEntityDescriptionListData", "c02-fn-measurementSeriesListData", "c02-selector-names-list-valued-element", "c02-shape-delete-elements+partial-selector"},
 	"C03": {"write-authorised", "write-unauthorised", "write-notified-subscriber", "write-source-device-omitted", "peer-announced-known-entity-again", "write-function-element-names-function-of-other-writability"},
-	"C04": {"c04-write-accepted", "c04-write-rejected", "c04-twin-checked", "c04-protected-element-present", "c04-shape-delete-selector+partial-selector"},
+	"C04": {"c04-write-accepted", "c04-write-rejected", "c04-twin-checked", "c04-protected-element-present", "c04-shape-delete-selector+partial-selector", "c04-stored-element-without-identifier"},
 	"C05": {"c05-mutated-message-handled", "c05-node-management-registry-call", "c05-messages-before-discovery", "c05-probe-read-answered", "c05-function-element-names-another-function", "gen-structured-selector-member"},
 	"C06": {"c06-add-and-remove-in-one-notification", "c06-remove-unknown-entity", "c06-repeated-announcement"},
-	"C07": {"goaf-calls-overlapped", "c07-discovery-reply-checked", "c07-read-overlapped-tree-change", "c07-subscription-before-discovery-reply", "c07-other-peer-unsubscribed"},
-	"C08": {"fanout-notify-to-subscriber", "reg-server-device-omitted", "duplicate-subscribe-refused", "entity-removal-names-unknown-entity-first"},
+	"C07": {"goaf-calls-overlapped", "c07-discovery-reply-checked", "c07-read-overlapped-tree-change", "c07-subscription-before-discovery-reply", "c07-other-peer-unsubscribed", "c07-subscription-repeated"},
+	"C08": {"fanout-notify-to-subscriber", "reg-server-device-omitted", "duplicate-subscribe-refused", "entity-removal-names-unknown-entity-first", "c08r-payload-compared"},
 	"C09": {"bind-granted", "two-bind-requests-for-one-feature-overlapped", "reg-server-device-omitted", "reg-requested-type-differs"},
 	"C10": {"teardown-with-state", "approval-verdict-given", "approval-left-pending"},
-	"C11": {"c11-snapshot-verified", "c11-non-persisting-update-checked", "c11-reader-pass"},
-	"C12": {"c12-expect-applied", "c12-expect-error", "verdict-overlapped-timeout", "several-writes-on-one-feature"},
-	"C13": {"c13-overlapping-sends", "c13w-request-from-callback", "c13w-request-withheld", "more-than-64-unanswered-requests", "more-than-100-notifications"},
-	"C14": {"c14-callback-fired-once", "c14-registration-overlapped-arrival", "c14-key-shared-between-peers"},
+	"C11": {"c11-snapshot-verified", "c11-non-persisting-update-checked", "c11-reader-pass", "c11h-snapshot-verified"},
+	"C12": {"c12-expect-applied", "c12-expect-error", "verdict-overlapped-timeout", "several-writes-on-one-feature", "c12r-second-write-partly-approved", "c12r-first-write-partly-approved"},
+	"C13": {"c13-overlapping-sends", "c13w-request-from-callback", "c13w-request-withheld", "more-than-64-unanswered-requests", "more-than-100-notifications", "c13-response-references-a-notification"},
+	"C14": {"c14-callback-fired-once", "c14-registration-overlapped-arrival", "c14-key-shared-between-peers", "c14-bystander-removed"},
 	"C15": {"c15-delivery-checked", "c15-subscription-change-overlapped-publish", "c15-unsubscribe-inside-handler"},
 	"C16": {"c16-refresh-observed", "c16-running-span-checked", "c16-stopped-at-end-checked"},
 	"C17": {"c17-api-calls", "c17-approval-callback", "c17-hot-write"},
